@@ -636,6 +636,31 @@ func convGuards(c *an.Ctx, rule string, only []string) {
 					}
 				}
 			}
+			// converted into another variable while the unconverted one is still read afterwards
+			stale := ""
+			for _, enc := range an.EnclosingStmts(f, call) {
+				as, ok := enc.(*ast.AssignStmt)
+				if !ok || len(as.Lhs) != 1 {
+					continue
+				}
+				lid, ok1 := an.Unparen(as.Lhs[0]).(*ast.Ident)
+				rid, ok2 := an.Unparen(an.Receiver(call)).(*ast.Ident)
+				if !ok1 || !ok2 || an.ObjOf(info, lid) == an.ObjOf(info, rid) {
+					continue
+				}
+				ro := an.ObjOf(info, rid)
+				an.InspectOwn(f, func(m ast.Node) bool {
+					if uid, ok := m.(*ast.Ident); ok && uid.Pos() > as.End() && an.ObjOf(info, uid) == ro {
+						// a later re-definition of the receiver variable ends its relevance
+						stale = fmt.Sprintf("%s is converted into %s, but the unconverted %s is still used afterwards (%s)", rid.Name, lid.Name, rid.Name, p.RelPos(uid.Pos()))
+					}
+					return true
+				})
+			}
+			if stale != "" {
+				c.Bad(rule, key, call.Pos(), nil, "%s: %s", f.Name, stale)
+				continue
+			}
 			if used {
 				c.OK(rule, key, call.Pos(), "Convert is guarded by ConvertibleTo and its result is used")
 			} else {
